@@ -10,6 +10,14 @@ CHECKS = {
    text="Every clause of C15 is a postcondition/lemma on the real functions of infretis/classes/path.py (append, get_start/end_point, check_interfaces, copy, __iadd__, reverse, paste_paths), proved for all path lengths, limits and order values with loop invariants; reverse-twice and copy-independence are lemmas over the contracts.",
    note="Trusted: the E1 Python-subset encoder (guarded by canaries and a CPython differential run), floats as reals (comparisons only), np.argmin/argmax contract (assumed, cross-checked natively), z3. Path.maxlen is an int.",
    design="5/C15"),
+ "C10": dict(level="proof", technique=E1,
+   text="wirefence_weight_and_pick is proved (all path lengths, all order values incl. ties with the interfaces) against a first-order definition of 'valid sub-path' taken from the property: recorded segments sound/ordered/complete, weight = sum of interior frame counts, positive iff a valid sub-path exists, pick = first segment whose cumulative share reaches the drawn number and returns exactly its frames; compute_weight (factor 2), calc_cv_vector (vector shape) and high_acc_swap (ratio) are proved against explicit formulas; time-reversal symmetry of the spec is a z3 lemma.",
+   note="Trusted: E1 encoder (canaries + native differential), floats as reals, rgen.random() in [0,1), np.argmax contract, A-DET (weight-only mode is a function of its inputs), maths lemmas L1/L2/L5 (cardinality of disjoint intervals, mirror invariance, uniform law) not mechanised.",
+   design="5/C10"),
+ "C09": dict(level="proof", technique=E1,
+   text="EngineBase.add_to_path is proved against an exact iff-specification of the stop/success rule; shoot() is executed symbolically on the real AST for every start condition and both length-limit branches: each ACC outcome satisfies Valid(path, ensemble) from the property text, accept iff status ACC, old path and all pre-existing frames untouched on every outcome, shooting index interior, shooting point contained and time-consistent, and the u <= n_old/n_new threshold (refuted on two input classes recorded as known findings, replayed natively through the real code).",
+   note="Assumed: the RESULT contract of engine.propagate for external engines (contracts/engine.py; its stop rule is the proved add_to_path), modify_velocities/calculate_order touch only their System, rgen ranges. Callee summaries paste_paths/__iadd__/copy are proved under C15. wire_fencing/zero-swap clauses are being added (see DESIGN).",
+   design="5/C09"),
 }
 NA = {
  "C01": "statistical convergence of an estimator over random histories; no pre/postcondition, invariant or lemma over function contracts expresses or decides it (DESIGN 5/C01). Its deterministic ingredients are decided under C02, C04, C09, C10.",
